@@ -154,6 +154,7 @@ def model_sorted(ex, lst: VList, keyfn, st):
     st.assume(z3.ForAll([i], z3.Implies(z3.And(0 <= i, i < n), z3.And(0 <= PI[i], PI[i] < n, R[i] == lst.arr[PI[i]], PINV[PI[i]] == i))))
     st.assume(z3.ForAll([i], z3.Implies(z3.And(0 <= i, i < n), z3.And(0 <= PINV[i], PINV[i] < n, PI[PINV[i]] == i))))
     out = VList(R, n, lst.ek)
+    out.origin = PI  # ghost: position of each element in the unsorted iterable (for "ties keep registry order")
     ef = getattr(lst, "elem_fact", None)
     if ef is not None:
         st.assume(z3.ForAll([i], z3.Implies(z3.And(0 <= i, i < n), ef(R[i]))))
